@@ -21,7 +21,7 @@ def run_one(patch):
         b = subprocess.run(["go", "build", "./src/...", "./cmd/..."], cwd=d, env=env, capture_output=True, text=True)
         if b.returncode != 0:
             return (patch, "nobuild", b.stderr[-300:])
-        r = subprocess.run([os.path.join(HERE, "bin/bblint"), "-repo", d, "-property", "all", "-evidence", os.path.join(d, "ev"),
+        r = subprocess.run([os.environ.get("BBLINT", os.path.join(HERE, "bin/bblint")), "-repo", d, "-property", "all", "-evidence", os.path.join(d, "ev"),
                             "-known", os.path.join(HERE, "known_findings.json")], capture_output=True, text=True)
         v = [l for l in r.stdout.splitlines() if l.startswith("VIOLATION")]
         return (patch, "silent" if r.returncode == 0 and not v else "fired", "\n".join(x[:400] for x in v))
